@@ -14,6 +14,7 @@ import (
 )
 
 var (
+	ErrAvgNonInteger        = errors.New("avg() requires non-NULL integer values")
 	ErrIncompatTypeCompare  = errors.New("incompatible type comparison")
 	ErrNonBoolJoinCond      = errors.New("non-boolean join condition")
 	ErrSortFieldNotFound    = errors.New("sort field is not in select list")
@@ -218,7 +219,11 @@ func projectColumns(selectList sql.SelectList, qfields storage.Fields, rows []*s
 			case sql.Average:
 				// set initial value used for subsequent aggregation step
 				idx := lookup[elem.ValueExpression.(sql.ColumnReference)]
-				newVals = append(newVals, row.Vals[idx].(int64))
+				val, ok := row.Vals[idx].(int64)
+				if !ok {
+					return nil, fmt.Errorf("%w: got %v", ErrAvgNonInteger, row.Vals[idx])
+				}
+				newVals = append(newVals, val)
 			case sql.Count:
 				// set initial value used for subsequent aggregation step
 				count := int64(0)
